@@ -46,7 +46,7 @@ D_S = 0.5          # grid step d (seconds, dyadic -> exact nanoseconds)
 T0_S = 1.0         # first arrival instant
 END_S = 12.0       # explicit end_time of every scenario
 MAX_EVENTS = 20000
-WALL_LIMIT_S = 30  # safety net: a handler that loops without yielding must not hang the checker
+WALL_LIMIT_S = 30  # safety net (CPU seconds of this process): a handler that loops without yielding must not hang the checker
 
 
 class Cfg:
@@ -326,8 +326,9 @@ def run_scenario(drv_cls, cfg, pattern, *, keep_trace=False, check_instances=Fal
     uu = itertools.count(1)
     saved_uuid4 = uuid.uuid4
     uuid.uuid4 = lambda: uuid.UUID(int=next(uu))
-    old_alarm = signal.signal(signal.SIGALRM, _alarm)
-    signal.alarm(WALL_LIMIT_S)
+    # CPU-time timer (not wall clock): the verdict of a scenario must not depend on how loaded the machine is
+    old_alarm = signal.signal(signal.SIGVTALRM, _alarm)
+    signal.setitimer(signal.ITIMER_VIRTUAL, WALL_LIMIT_S)
     counters = {"push": 0, "lib": 0, "same": 0, "max_same": 0, "last": None}
     try:
         with owned_random(None), TimeTravelWatch() as tt:
@@ -440,14 +441,14 @@ def run_scenario(drv_cls, cfg, pattern, *, keep_trace=False, check_instances=Fal
     except _WallTimeout:
         res.outcome = "wall-timeout"
         res.events = 0
-        res.error = f"no progress within {WALL_LIMIT_S}s wall (handler loop without yield?)"
+        res.error = f"no progress within {WALL_LIMIT_S}s of CPU time (handler loop without yield?)"
     except Exception as exc:  # driver or library error: reported, never a verdict
         res.outcome = "error"
         res.events = 0
         res.error = f"{type(exc).__name__}: {exc}"[:300]
     finally:
-        signal.alarm(0)
-        signal.signal(signal.SIGALRM, old_alarm)
+        signal.setitimer(signal.ITIMER_VIRTUAL, 0)
+        signal.signal(signal.SIGVTALRM, old_alarm)
         uuid.uuid4 = saved_uuid4
     times = [t for (t, _i) in h.arrived]
     res.tie = len(times) != len(set(times))
